@@ -139,13 +139,33 @@ pub fn run(reg: &[Box<dyn TypeOps>], defaults: &[Option<&'static str>], cfg: &Cf
         let al = t.align();
         let unsized_ = !sh.is_sized();
         let n_inits = cfg.scale * if cfg.thorough { if unsized_ { 40 } else { 6 } } else if unsized_ { 8 } else { 2 };
-        for it in 0..n_inits {
-            let d = gen_init(&sh, &mut rng, 0);
-            let need = match needed(t.as_ref(), &d, &mut big) { Some(n) => n, None => t.min_size() + 8 };
+        // boundary initialisers for 1-byte offset types: an item whose link offset lands on / next to `L::MAX` in the middle of a
+        // `FromIterator` (the emplacer has to stop there and leave a valid chain)
+        let mut boundary: Vec<D> = vec![];
+        if let Shape::Flex(e, l) = &sh {
+            if l.size == 1 {
+                for n in [249usize, 251, 252, 253, 254, 255] {
+                    let item = match &**e {
+                        Shape::Vec(ee, _) if ee.size() == 1 => Some(D::VecIter((0..n).map(|i| gen_sized(ee, &mut Rng::new(i as u64))).collect())),
+                        Shape::Str(_) => Some(D::StrFrom(vec![b'a'; n])),
+                        _ => None,
+                    };
+                    if let Some(big_item) = item {
+                        let small = gen_init(e, &mut rng, 1).strip_def();
+                        boundary.push(D::FlexIter(vec![small.clone(), big_item, small]));
+                    }
+                }
+            }
+        }
+        for it in 0..n_inits + boundary.len() {
+            let scripted = it >= n_inits;
+            let d = if scripted { boundary[it - n_inits].clone() } else { gen_init(&sh, &mut rng, 0) };
+            let need = match needed(t.as_ref(), &d, &mut big) { Some(n) => n, None => if scripted { 300 } else { t.min_size() + 8 } };
             let maxlen = need + 2 * al + 3;
             // every single length, at the natural alignment (slice flush against the end guard when it happens to be aligned,
             // in the middle otherwise), plus misaligned offsets for a subset
             for len in 0..=maxlen {
+                if scripted && len > 6 && len + 12 < need { continue; }
                 let mut places = vec![Place::Mid(0)];
                 if (PAGE - len) % al == 0 && it % 2 == 0 { places.push(Place::End); }
                 if al > 1 && (len + it) % 5 == 0 { places.push(Place::Mid(1 + rng.below(al as u64 - 1) as usize)); }
